@@ -95,19 +95,29 @@ def fmt_int(rng, v, pad_ok=True):
     return s
 
 
+def corner_field(rng, lo, hi):
+    """a corner of the range: its two ends and the first value beyond the upper one"""
+    v = rng.choice([lo, lo, hi, hi + 1])
+    return v, lo <= v <= hi
+
+
 def gen_hms(rng):
-    h, ok1 = pick_field(rng, 0, 23)
-    m, ok2 = pick_field(rng, 0, 59)
+    # one time in seven is a CORNER: every field at an end of its range or just beyond it (24:00:00, 23:59:60, 00:60:00, ...):
+    # "the instant after the last valid time" is where an end-of-day special case would sit
+    pick = corner_field if rng.random() < 0.15 else pick_field
+    h, ok1 = pick(rng, 0, 23)
+    m, ok2 = pick(rng, 0, 59)
     withsec = rng.random() < 0.8
-    s, ok3 = pick_field(rng, 0, 59) if withsec else (0, True)
+    s, ok3 = pick(rng, 0, 59) if withsec else (0, True)
     text = fmt_int(rng, h) + ":" + fmt_int(rng, m) + ((":" + fmt_int(rng, s)) if withsec else "")
     return text, (h, m, s), ok1 and ok2 and ok3
 
 
 def gen_date(rng):
     y = rng.choice([rng.randint(-3000, 3000), rng.randint(-70000, 70000), 0, -1, 1, 9999, 10000, -10000])
-    m, ok1 = pick_field(rng, 1, 12)
-    d, ok2 = pick_field(rng, 1, 39)
+    pick = corner_field if rng.random() < 0.15 else pick_field
+    m, ok1 = pick(rng, 1, 12)
+    d, ok2 = pick(rng, 1, 39)
     text = fmt_int(rng, y) + "/" + fmt_int(rng, m) + "/" + fmt_int(rng, d)
     return text, (y, m, d), ok1 and ok2
 
@@ -377,6 +387,30 @@ class _C09(_RulesBase):
             if u:
                 for t in ("1", "", "1/1/1", "a"):
                     mreqs.append("rules decode %s %s" % (u, hexs(t)))
+        # the JSON-valued rule type: every kind of JSON value where the object is expected, and inside it (null, true, a
+        # string, an array, a nested object, a fraction, an exponent, a duplicate / unknown / differently-cased key),
+        # with JSON white space around — plus texts that are almost JSON
+        atoms = ["null", "true", "false", "0", "1", "-1", "-0", "1.5", "1e2", "1E+2", "12345678901234567890", '""', '"x"', '"1"', "[]", "[1]", "[null]",
+                 "{}", '{"a":1}', "[[]]", '{"month":{}}', "nul", "nulll", "NULL", "Null", "tru", "None", "undefined", "NaN", "Infinity", "-", "+1", "01", "1.", ".5",
+                 "0x10", "'x'", "{", "}", "[", "]", ",", ":", "{}{}", "{} {}", "{},", "//x", "/**/{}", "{\"month\":1,}", "{\"month\" 1}", "{month:1}"]
+        keys = ["weekIndex", "weekDay", "month", "WeekIndex", "MONTH", "Month", "m\\u006fnth", "month ", "", "x"]
+        jtexts = list(atoms)
+        for a in atoms[:24]:
+            for k in keys:
+                jtexts.append('{"%s":%s}' % (k, a))
+            jtexts.append('{"weekIndex":1,"weekDay":2,"month":%s}' % a)
+            jtexts.append('{"month":3,"month":%s}' % a)
+        wsp = ["", " ", "\n", "\t", "\r\n ", "\ufeff", "\x00", "\u00a0"]
+        for t in list(jtexts):
+            if rng.random() < 0.5:
+                jtexts.append(rng.choice(wsp) + t + rng.choice(wsp))
+        for t in atoms[:20]:
+            jtexts += [w + t for w in wsp[1:]] + [t + w for w in wsp[1:]]
+        for t in jtexts:
+            try:
+                mreqs.append("rules decode weekMonth %s" % hexs(t))
+            except UnicodeEncodeError:
+                pass
         mreqs.append("rules types")
         sts.append(Stream("rules-mutations", mreqs, compare=compare_lines))
         # numbers at and around the edges of the machine integer types, alone, in short lists and in short
